@@ -367,7 +367,7 @@ func TestC07Decoded(t *testing.T) {
 			// (extension of an extension, record pointing at itself, ...)
 			hostile := rapid.Bool().Draw(t, "extHostile")
 			if e2, ok := lookups.Extensionize(enc, kind, lookups.ExtOptions{Hostile: func(label string, n int) int {
-				if !hostile || rapid.IntRange(0, 3).Draw(t, label+"Dev") != 0 {
+				if !hostile || rapid.IntRange(0, 2).Draw(t, label+"Dev") != 0 {
 					return 0
 				}
 				return rapid.IntRange(0, n-1).Draw(t, label)
